@@ -128,14 +128,15 @@ seal_inst!(c04_seal_fresh_nonce_s2_n65400, 2, 65400, 100);
 /// Receiver side of one datagram. The datagram is laid out exactly as `encrypt` is shown to lay it out by
 /// c04_seal_fresh_nonce_* (slot id, low 7 bytes of the sender's 96-bit counter, ciphertext, tag) and sealed by the
 /// ideal AEAD under an ARBITRARY 96-bit sender counter; then one real `decrypt` runs.
-///   mode 0..=7  : the adversary rewrites header byte `mode` (0 = key id, 1..7 = counter bytes) to any value
+///   mode 0      : the adversary rewrites the key-id byte: cut = 0: to any value outside 0..=3; cut = k: to slot+k mod 4
+///   mode 1..=7  : the adversary rewrites counter byte `mode` of the header to any value
 ///   mode 8 / 9  : rewrites ciphertext / tag byte number `cut`;   mode 10: delivers it untouched
 ///   mode 11     : untouched, but the receiver's slot holds other key material (datagram of another connection)
 ///   mode 12     : truncated by `cut` bytes
 /// Decided: accepted  <=>  untouched, same key, counter fits the 56 transmitted bits (C04: an overflowing counter is
 /// undecryptable, never wrapped), and the sender's half is the opposite of the receiver's (C02: a reflected datagram
 /// is dropped); on acceptance the window is the payload, byte-identical, and `seen` is the sender's counter.
-fn recv_datagram(mode: usize, slot: usize, n: usize, cut: usize) {
+fn recv_datagram(mode: usize, slot: usize, n: usize, cut: usize, precise: bool) {
     let nonce = any_nonce();
     let keyb: [u8; 32] = kani::any();
     let otherkey: [u8; 32] = kani::any();
@@ -162,12 +163,39 @@ fn recv_datagram(mode: usize, slot: usize, n: usize, cut: usize) {
     } else {
         receiver.keys[slot] = keyed_slot(algo, &keyb);
     }
+    // key-id rewrite: either any value outside 0..=3 (symbolic), or one concrete other slot id - a symbolic slot index
+    // would make CBMC havoc byte-level reads through `&mut self.keys[key_id]` (see engine note below)
+    let newbyte = if mode != 0 {
+        newbyte
+    } else if cut == 0 {
+        kani::assume(newbyte > 3);
+        newbyte
+    } else {
+        ((slot + cut) % 4) as u8
+    };
+    let mut changed = false;
+    // header as the sender wrote it, then as the adversary rewrote it (the header does not enter the seal, so the
+    // rewrite is applied while assembling the datagram: writes into the big buffer after the seal defeat symex's
+    // constant folding of the key-id byte)
+    let mut hdr = [0u8; 8];
+    hdr[0] = slot as u8;
+    hdr[1..8].copy_from_slice(&nonce.as_bytes()[5..]);
+    if mode <= 7 {
+        changed = hdr[mode] != newbyte;
+        hdr[mode] = newbyte;
+    }
     let mut buf = MsgBuffer::new(100);
     buf.set_length(EXTRA_LEN + n + TAG_LEN);
     {
         let m = buf.message_mut();
-        m[0] = slot as u8;
-        m[1..8].copy_from_slice(&nonce.as_bytes()[5..]);
+        if mode == 0 && cut != 0 {
+            m[0] = ((slot + cut) % 4) as u8;
+        } else if mode == 0 {
+            m[0] = hdr[0];
+        } else {
+            m[0] = slot as u8;
+        }
+        m[1..8].copy_from_slice(&hdr[1..]);
         m[8..8 + n].copy_from_slice(&payload[..n]);
         let tag = {
             let (d, _) = m[8..].split_at_mut(n);
@@ -175,13 +203,8 @@ fn recv_datagram(mode: usize, slot: usize, n: usize, cut: usize) {
         };
         m[8 + n..].copy_from_slice(tag.as_ref());
     }
-    let mut changed = false;
-    if mode <= 9 {
-        let idx = match mode {
-            0..=7 => mode,
-            8 => 8 + cut,
-            _ => 8 + n + cut,
-        };
+    if mode == 8 || mode == 9 {
+        let idx = if mode == 8 { 8 + cut } else { 8 + n + cut };
         let old = buf.message()[idx];
         buf.message_mut()[idx] = newbyte;
         changed = newbyte != old;
@@ -191,28 +214,24 @@ fn recv_datagram(mode: usize, slot: usize, n: usize, cut: usize) {
         buf.set_length(l - cut);
         changed = true;
     }
-    if mode != 0 {
-        // Engine note (DESIGN 2.4b): with a key-id byte that symex cannot constant-fold, `&mut self.keys[key_id]` is a
-        // symbolic-offset pointer, and this CBMC version havocs 12-byte memcmp/memcpy reads through it (over-
-        // approximation: spurious rejections, never missed ones). Re-storing the unchanged id last keeps it a constant.
-        buf.message_mut()[0] = slot as u8;
-    }
     let res = okf(receiver.decrypt(&mut buf));
     let nb = nonce.as_bytes();
     let fits = nb[1] == 0 && nb[2] == 0 && nb[3] == 0 && nb[4] == 0;
     let msb_ok = nb[0] == if recv_half { 0x00 } else { 0x80 };
     let same_key = mode != 11 || !keys_differ;
-    if mode == 10 {
-        // untouched datagram, right key: accepted iff the counter fits and the halves are opposite
-        assert!(res.is_some() == (fits && msb_ok));
-    } else if changed || !same_key {
-        // Engine note (DESIGN 2.4b): once the buffer holds an adversarial byte, symex no longer folds the key-id byte
-        // to a constant, `&mut self.keys[key_id]` becomes a symbolic-offset pointer, and this CBMC version havocs the
-        // 12-byte memcmp behind `nonce < min_nonce` / `seen_nonce < nonce` (an over-approximation: it can only add
-        // rejections). The direction asserted here cannot be falsified by that; the other one is mode 10.
+    let expect_ok = !changed && same_key && fits && msb_ok;
+    if precise && (mode <= 7 || mode == 10) {
+        // decided in both directions: accepted iff nothing was altered, the counter fits and the halves are opposite
+        assert!(res.is_some() == expect_ok);
+    } else if !expect_ok {
+        // Engine note (DESIGN 2.4b): symex does not fold the key-id byte read back from the 64 KiB buffer, so
+        // `&mut self.keys[key_id]` is a symbolic-offset pointer. For element 0 CBMC 6.11 resolves reads through it
+        // exactly; for elements 1..3 it havocs them (an over-approximation that only adds behaviours), unless the
+        // buffer is made field sensitive (`--max-field-sensitivity-array-size 65536`, ~500 s: the *_fs instances of the
+        // thorough tier). Without that only this direction - the property's "is dropped" - is asserted.
         assert!(res.is_none());
     }
-    if res.is_some() && mode == 10 {
+    if res.is_some() && (precise || expect_ok) {
         assert!(buf.get_start() == 100 + EXTRA_LEN && buf.len() == n);
         let m = buf.message();
         let mut i = 0;
@@ -220,9 +239,11 @@ fn recv_datagram(mode: usize, slot: usize, n: usize, cut: usize) {
             assert!(m[i] == payload[i]);
             i += 1;
         }
-        assert!(nonce_val(receiver.keys[slot].seen_nonce.as_bytes()) == nonce_val(nb));
+        if precise {
+            assert!(nonce_val(receiver.keys[slot].seen_nonce.as_bytes()) == nonce_val(nb));
+        }
     }
-    if res.is_none() {
+    if res.is_none() && (precise || slot == 0) {
         let mut i = 0;
         while i < 4 {
             assert!(nonce_val(receiver.keys[i].seen_nonce.as_bytes()) == 0);
@@ -235,25 +256,36 @@ fn recv_datagram(mode: usize, slot: usize, n: usize, cut: usize) {
     witness!();
 }
 macro_rules! recv_inst {
-    ($($name:ident = ($mode:expr, $slot:expr, $n:expr, $cut:expr)),*) => {$(
+    ($($name:ident = ($mode:expr, $slot:expr, $n:expr, $cut:expr, $precise:expr)),*) => {$(
         #[cfg_attr(kani, kani::proof, kani::unwind(34))]
         pub fn $name() {
-            recv_datagram($mode, $slot, $n, $cut)
+            recv_datagram($mode, $slot, $n, $cut, $precise)
         }
     )*};
 }
 recv_inst!(
-    c02_recv_genuine_s0_n4 = (10, 0, 4, 0), c02_recv_genuine_s1_n1 = (10, 1, 1, 0), c02_recv_genuine_s2_n8 = (10, 2, 8, 0),
-    c02_recv_genuine_s3_n2 = (10, 3, 2, 0),
-    c02_recv_tamper_keyid_s0 = (0, 0, 4, 0), c02_recv_tamper_keyid_s3 = (0, 3, 4, 0),
-    c02_recv_tamper_ctr1 = (1, 1, 4, 0), c02_recv_tamper_ctr2 = (2, 0, 4, 0), c02_recv_tamper_ctr3 = (3, 0, 4, 0),
-    c02_recv_tamper_ctr4 = (4, 2, 4, 0), c02_recv_tamper_ctr5 = (5, 0, 4, 0), c02_recv_tamper_ctr6 = (6, 0, 4, 0),
-    c02_recv_tamper_ctr7 = (7, 3, 4, 0),
-    c02_recv_tamper_ct0 = (8, 0, 4, 0), c02_recv_tamper_ct3 = (8, 0, 4, 3),
-    c02_recv_tamper_tag0 = (9, 1, 4, 0), c02_recv_tamper_tag15 = (9, 1, 4, 15),
-    c02_recv_other_connection = (11, 0, 4, 0),
-    c02_recv_truncated_n8_cut1 = (12, 0, 8, 1), c02_recv_truncated_n8_cut8 = (12, 0, 8, 8), c02_recv_truncated_n4_cut3 = (12, 0, 4, 3),
-    c02_recv_truncated_n4_cut5 = (12, 0, 4, 5), c02_recv_truncated_n8_cut24 = (12, 0, 8, 24)
+    // slot 0: exact in both directions
+    c02_recv_genuine_s0_n4 = (10, 0, 4, 0, true), c02_recv_genuine_s0_n0 = (10, 0, 0, 0, true), c02_recv_genuine_s0_n8 = (10, 0, 8, 0, true),
+    c02_recv_tamper_keyid_s0 = (0, 0, 4, 0, true),
+    c02_recv_tamper_keyid_s0_to1 = (0, 0, 4, 1, false), c02_recv_tamper_keyid_s0_to2 = (0, 0, 4, 2, false),
+    c02_recv_tamper_keyid_s0_to3 = (0, 0, 4, 3, false),
+    c02_recv_tamper_ctr1 = (1, 0, 4, 0, true), c02_recv_tamper_ctr2 = (2, 0, 4, 0, true), c02_recv_tamper_ctr3 = (3, 0, 4, 0, true),
+    c02_recv_tamper_ctr4 = (4, 0, 4, 0, true), c02_recv_tamper_ctr5 = (5, 0, 4, 0, true), c02_recv_tamper_ctr6 = (6, 0, 4, 0, true),
+    c02_recv_tamper_ctr7 = (7, 0, 4, 0, true),
+    c02_recv_tamper_ct0 = (8, 0, 4, 0, false), c02_recv_tamper_ct3 = (8, 0, 4, 3, false),
+    c02_recv_tamper_tag0 = (9, 0, 4, 0, false), c02_recv_tamper_tag15 = (9, 0, 4, 15, false),
+    c02_recv_other_connection = (11, 0, 4, 0, false),
+    c02_recv_truncated_n8_cut1 = (12, 0, 8, 1, false), c02_recv_truncated_n8_cut8 = (12, 0, 8, 8, false),
+    c02_recv_truncated_n4_cut3 = (12, 0, 4, 3, false), c02_recv_truncated_n4_cut5 = (12, 0, 4, 5, false),
+    c02_recv_truncated_n8_cut24 = (12, 0, 8, 24, false),
+    // slots 1..3: "is dropped" direction only (engine note in recv_datagram)
+    c02_recv_genuine_s1_n1 = (10, 1, 1, 0, false), c02_recv_genuine_s2_n8 = (10, 2, 8, 0, false), c02_recv_genuine_s3_n2 = (10, 3, 2, 0, false),
+    c02_recv_tamper_keyid_s3 = (0, 3, 4, 0, false), c02_recv_tamper_keyid_s2_to3 = (0, 2, 4, 1, false),
+    c02_recv_tamper_ctr1_s1 = (1, 1, 4, 0, false), c02_recv_tamper_ctr7_s3 = (7, 3, 4, 0, false),
+    c02_recv_tamper_tag15_s2 = (9, 2, 4, 15, false),
+    // slots 1..3 exact, with the message buffer made field sensitive (thorough tier, ~500 s each)
+    c02_recv_genuine_s1_n1_fs = (10, 1, 1, 0, true), c02_recv_genuine_s2_n8_fs = (10, 2, 8, 0, true), c02_recv_genuine_s3_n2_fs = (10, 3, 2, 0, true),
+    c02_recv_tamper_ctr1_s1_fs = (1, 1, 4, 0, true)
 );
 
 /// a freshly created slot starts in the requested half, with bytes 1..6 zero and an unconstrained (random) tail,
@@ -579,3 +611,4 @@ total_inst!(
     c08_core_decrypt_total_len31 = 31, c08_core_decrypt_total_len32 = 32, c08_core_decrypt_total_len40 = 40,
     c08_core_decrypt_total_len48 = 48
 );
+
